@@ -114,6 +114,7 @@ func Reset(n int, plan []Plan, mapSeed uint64) {
 	LockWaits = 0
 	heapLimit = DefaultHeapLimit
 	heapKind = "heap-soft"
+	softFired = false
 	for i := 0; i < MaxTasks; i++ {
 		done[i] = false
 		blockedOn[i] = 0
@@ -341,6 +342,9 @@ func step(site uint32) {
 		opLimit[me] = 0
 		panic(Abort{"budget"})
 	}
+	if softFired {
+		panic(Abort{"heap-soft"})
+	}
 	if childAbort != "" && me < baseTasks {
 		k := childAbort
 		childAbort = ""
@@ -351,6 +355,9 @@ func step(site uint32) {
 		runtime.ReadMemStats(&ms)
 		if ms.HeapAlloc > heapLimit {
 			heapLimit = 0
+			if heapKind == "heap-soft" {
+				softFired = true // the run gives no verdict any more: let its remaining ops end at once
+			}
 			panic(Abort{heapKind})
 		}
 	}
@@ -423,6 +430,9 @@ func SetHeapLimit(b uint64) { heapLimit = b; heapKind = "heap" }
 // memory), "heap-soft" for the default safety limit, whose only purpose is to
 // keep a worker from being killed by the kernel: such a run gives no verdict.
 var heapKind = "heap-soft"
+
+// softFired: the safety limit struck in this run.
+var softFired bool
 
 // ProbeEnter/ProbeLeave mark the current task as being inside a region the
 // harness cares about (index 0..3); ProbeHit[j] counts switches between two
